@@ -341,6 +341,46 @@ pub fn run(ctx: &Ctx) -> Report {
     rep.part("SIGKILL at every decision point of an overwrite step", st, json!({"scenarios": kill.len()}));
     let st = explore(&ctx.pool, sched, j);
     rep.part("schedule search on the pair classes (two workers scanning one directory)", st, json!({"d": if q { 1 } else { 2 }}));
+    // failures while the backup is being arranged: listing the directory, probing, renaming
+    {
+        let w = Worker::new(45, &ctx.pool.bins);
+        let mut jobs = vec![];
+        let mut errs = vec![];
+        let mut nsites = 0;
+        for s in &kill {
+            let sa = Arc::new(s.clone());
+            let base = RunSpec::base(Policy::P0);
+            let rec = match w.run(s, &base) {
+                Ok(r) => r,
+                Err(e) => {
+                    errs.push(format!("recording run of {}: {}", s.name, e));
+                    continue;
+                }
+            };
+            let mut cnt: std::collections::BTreeMap<(usize, String), usize> = std::collections::BTreeMap::new();
+            for e in &rec.events {
+                let c = cnt.entry((e.th, e.name.clone())).or_insert(0);
+                *c += 1;
+                let on_dst = e.rel.as_deref().map(|r| r.starts_with("dstdir")).unwrap_or(false) || e.rel2.as_deref().map(|r| r.starts_with("dstdir")).unwrap_or(false);
+                let errnos: Vec<i32> = match e.name.as_str() {
+                    "getdents64" if on_dst => vec![libc::EIO],
+                    "statx" | "newfstatat" if on_dst => vec![libc::EIO, libc::EACCES],
+                    "rename" | "renameat" | "renameat2" => vec![libc::EACCES, libc::EIO],
+                    "openat" if on_dst => vec![libc::EACCES, libc::EMFILE],
+                    _ => vec![],
+                };
+                for en in errnos {
+                    nsites += 1;
+                    let mut sp = base.clone();
+                    sp.faults.push(crate::sup::Fault { call: e.name.clone(), thread: Some(rec.threads[e.th].clone()), nth: Some(*c), path_contains: None, action: crate::sup::Action::Errno(en) });
+                    jobs.push((sa.clone(), sp, 0usize));
+                }
+            }
+        }
+        let st = explore(&ctx.pool, jobs, j);
+        rep.part("injected failures of getdents64 / statx / rename / open during an overwrite step", st, json!({"fault_runs": nsites}));
+        rep.machinery_errors.extend(errs);
+    }
     rep.assumptions = vec!["a backup number past u64::MAX cannot exist: the dev-profile build panics on the increment and exits non-zero with nothing lost, which the property tolerates".into()];
     rep
 }
